@@ -23,8 +23,8 @@ fn range(ty: Option<&str>, tag: &str, extra: &str) -> Val {
     })
 }
 
-pub const KINDS: [&str; 32] = [
-    "fk_arg_component_only", "fk_arg_component_and_text", "fk_lit_count_incl_end", "fk_lit_count_excl_end", "fk_arg_into_comp", "fk_arg_into_plural_form", "plural_unused_form_var", "plural_unused_form_comp", "fk_two_hops_plural", "fk_two_hops_range", "plural_plain", "plural_other_plain", "range_plain", "string", "var_x", "var_y_number", "var_x_date", "comp_b", "comp_i_var_x", "comp_b_var_y", "comp_b_comp_i_var_w", "comp_b_twice", "range_i32", "range_u8", "range_f32", "plural", "fk_rename_plural", "fk_rename_range", "fk_lit_count", "null", "number", "bool",
+pub const KINDS: [&str; 34] = [
+    "range_lone_fallback", "range_lone_fallback_u8_var", "fk_arg_component_only", "fk_arg_component_and_text", "fk_lit_count_incl_end", "fk_lit_count_excl_end", "fk_arg_into_comp", "fk_arg_into_plural_form", "plural_unused_form_var", "plural_unused_form_comp", "fk_two_hops_plural", "fk_two_hops_range", "plural_plain", "plural_other_plain", "range_plain", "string", "var_x", "var_y_number", "var_x_date", "comp_b", "comp_i_var_x", "comp_b_var_y", "comp_b_comp_i_var_w", "comp_b_twice", "range_i32", "range_u8", "range_f32", "plural", "fk_rename_plural", "fk_rename_range", "fk_lit_count", "null", "number", "bool",
 ];
 
 /// entries for key `k` of kind `kind` (plural adds two entries)
@@ -60,6 +60,9 @@ pub fn kind_entries(kind: &str, tag: &str) -> Vec<(String, Val)> {
         ],
         "plural_plain" => vec![("k_one".into(), st(&format!("[{tag}.one]"))), ("k_other".into(), st(&format!("[{tag}.other]")))],
         "plural_other_plain" => vec![("k_one".into(), s(vec![text(&format!("[{tag}.one]")), var("count")])), ("k_other".into(), st(&format!("[{tag}.other]")))],
+        // a range that is nothing but its fallback arm: the count is still a required argument, of the range's type
+        "range_lone_fallback" => one(Val::Range(RangeDecl { ty: None, branches: vec![rb(st(&format!("[{tag}.fb]")), vec![])] })),
+        "range_lone_fallback_u8_var" => one(Val::Range(RangeDecl { ty: Some("u8".into()), branches: vec![rb(s(vec![text(&format!("[{tag}.fb]")), var("x")]), vec![])] })),
         "range_plain" => one(Val::Range(RangeDecl { ty: Some("u8".into()), branches: vec![rb(st(&format!("[{tag}.0]")), vec![CountSpec::UInt(0)]), rb(st(&format!("[{tag}.fb]")), vec![])] })),
         "fk_rename_plural" => one(s(vec![fk_args("pl", vec![("count", FkArg::Str(vec![var("n")]))])])),
         "fk_rename_range" => one(s(vec![fk_args("rg", vec![("count", FkArg::Str(vec![var("count")])), ("q", FkArg::Str(vec![text("Q")]))])])),
